@@ -651,37 +651,26 @@ def run(tier, seed):
         ncol += sum(1 for e in tr["ev"] if e["a"] == "Collect")
         nagf += sum(1 for e in tr["ev"] if e["a"] == "Collect" and e["agf"])
         mius.add(tr["const"]["miu"])
-    # a trace stops at its first rejected step; when that step is an invariant failure (the step itself conforms
-    # to the spec) the rest of the execution is validated as a trace of its own, so that nothing stays unjudged
-    pending, rounds = traces, 0
-    while pending:
-        nxt = []
-        for tr in pending:
-            v = verdicts[tr["id"]]
-            if v[0] == "ACCEPT":
-                acc += 1 if "~" not in tr["id"] else 0
-                continue
-            line, act, why = v[1], v[2], v[3]
-            ev = tr["ev"][line - 1]
-            key = classify(tr, line, act, why)
+    # a step that conforms to the spec action but breaks invariants is recorded by the trace module and the
+    # execution goes on; a step that does not conform (guard / result / post-state) ends the trace
+    for tr in traces:
+        v = verdicts[tr["id"]]
+        if v[0] == "ACCEPT":
+            acc += 1
+            continue
+        line, act, why = v[1], v[2], v[3]
+        fails = v[4] if len(v) > 4 else []
+        items = [(f[0], f[1], ["inv", f[2]]) for f in fails]
+        if why and why[0] != "inv":
+            items.append((line, act, why))
+        for (ln, op, wy) in items:
+            ev = tr["ev"][ln - 1]
+            key = classify(tr, ln, op, wy)
             brief = dict(a=ev["a"], miu=ev.get("pre", {}).get("miu"), enc=ev.get("enc"), agf=ev.get("agf"),
                          frame=[(p["k"], p["dl"], p["res"]) for p in ev.get("frame", [])][:12])
-            root = tr["id"].split("~")[0]
             ck.violation(key, "trace %s rejected at event %d (%s): %s ; %s" % (
-                tr["id"], line, act, json.dumps(why)[:500], json.dumps(brief)[:500]),
-                replay=dict(kind="trace", **meta[root]))
-            if why and why[0] == "inv":
-                rest = remainder(tr, line)
-                if rest is not None:
-                    nxt.append(rest)
-        rounds += 1
-        if not nxt or rounds > 6:
-            break
-        more, st2 = tlc.validate_traces("Trace_LlcpCollect.tla", "Trace_LlcpCollect.cfg", PID, nxt,
-                                        shards=min(16, len(nxt)), timeout=900)
-        verdicts.update(more)
-        st["states"] += st2["states"]
-        pending = nxt
+                tr["id"], ln, op, json.dumps(wy)[:500], json.dumps(brief)[:500]),
+                replay=dict(kind="trace", **meta[tr["id"]]))
     ck.cover(traces_validated_against_impl=acc, trace_events=nev, collects=ncol, aggregated_frames=nagf,
              distinct_mius=len(mius), trace_states=st["states"],
              binding_selftest="corrupted len(pdu) and dropped Collect both rejected")
